@@ -542,6 +542,10 @@ func checkC19(c *Ctx) {
 	c.Expect("R6", 5)
 	checkNoUseAfterFree(c, "R7")
 	checkLutRefresh(c, "R8")
+	c.Rule("R9", "the map of tracked keys and the frequency list are emptied together")
+	checkResetTogether(c, "R9")
+	c.Rule("R10", "the HOTKEY report lists the tracked key names verbatim")
+	checkReportNamesVerbatim(c, "R10")
 }
 
 var le19cache *lockEngine
@@ -665,4 +669,123 @@ func checkLutRefresh(c *Ctx, rule string) {
 		c.Check(path == nil, rule, fnKey(fn)+" refreshes the last-update minute on every path", fn.Pos(), "every return crosses the store", "a path returns without refreshing the last-update minute ("+p.pathString(path)+"): keys that take it keep an old minute, the decay pass halves them alone and the HOTKEY report is no longer ordered by non-increasing heat")
 	}
 	c.Expect(rule, 1)
+}
+
+// checkResetTogether (C19.R9): the map of tracked keys and the frequency list describe the same set. Whatever empties
+// one at a collection point must empty the other: a function that replaces or clears the map has to reset the list
+// head on every path, otherwise the previous period's nodes stay linked - evict() then pops nodes whose keys are no
+// longer in the map, nothing is really evicted and the counter tracks more keys than its capacity.
+func checkResetTogether(c *Ctx, rule string) {
+	p := c.P
+	items := p.Field(hkPkg, "Counter", "items")
+	head := p.Field(hkPkg, "Counter", "freqHead")
+	if items == nil || head == nil {
+		c.Unresolved(rule, "Counter.items / Counter.freqHead")
+		return
+	}
+	n := 0
+	for _, fn := range p.FuncsIn(hkPkg) {
+		if p.isTestFn(fn) {
+			continue
+		}
+		var clears ssa.Instruction
+		eachInstr(fn, func(b *ssa.BasicBlock, _ int, in ssa.Instruction) {
+			switch x := in.(type) {
+			case *ssa.Store:
+				// items = make(...) on an existing counter
+				if f, base := fieldAddr(x.Addr); f == items && !isFreshAlloc(base) {
+					if _, isMk := x.Val.(*ssa.MakeMap); isMk {
+						clears = in
+					}
+				}
+			case *ssa.Call:
+				// for k := range items { delete(items, k) }: a delete keyed by the range variable of the same map
+				if isBuiltin(x, "delete") {
+					if f, _ := loadedField(x.Call.Args[0]); f == items {
+						if derives(x.Call.Args[1], func(v ssa.Value) bool {
+							nx, ok := v.(*ssa.Next)
+							if !ok {
+								return false
+							}
+							rg, ok := nx.Iter.(*ssa.Range)
+							if !ok {
+								return false
+							}
+							rf, _ := loadedField(rg.X)
+							return rf == items
+						}) {
+							clears = in
+						}
+					}
+				}
+			}
+		})
+		if clears == nil {
+			continue
+		}
+		n++
+		resetsHead := func(x ssa.Instruction) bool {
+			st, ok := x.(*ssa.Store)
+			if !ok {
+				return false
+			}
+			f, _ := fieldAddr(st.Addr)
+			return f == head && isNilConst(st.Val)
+		}
+		ok, _ := p.mustOnAllPaths(fn, resetsHead, 1)
+		c.Check(ok, rule, fnKey(fn)+" empties the map and the frequency list together", clears.Pos(), "every path also resets the list head", "the map of tracked keys is emptied but the frequency list keeps the previous period's nodes: once the counter is full again evict() pops stale nodes (their delete from the map is a no-op) and the newcomer is added anyway - the counter tracks more keys than its capacity")
+	}
+	if n == 0 {
+		c.Unresolved(rule, "no function empties Counter.items")
+	}
+}
+
+// checkReportNamesVerbatim (C19.R10): the HOTKEY report lists the names the collector tracks. A name that is cut,
+// folded or otherwise transformed on its way into the reply is a key nobody accessed, and two tracked keys can collapse
+// into one listed name.
+func checkReportNamesVerbatim(c *Ctx, rule string) {
+	p := c.P
+	h := p.Func(redisPkg, "handleHotKey")
+	nameF := p.Field(hkPkg, "HotKey", "Name")
+	if h == nil || nameF == nil {
+		c.Unresolved(rule, "handleHotKey / HotKey.Name")
+		return
+	}
+	used, bad := 0, ""
+	var at token.Pos = h.Pos()
+	for _, fn := range append([]*ssa.Function{h}, staticCalleesDeep(h, 1)...) {
+		if fn.Pkg == nil || fn.Pkg.Pkg.Path() != modPath+"/"+redisPkg {
+			continue
+		}
+		eachInstr(fn, func(_ *ssa.BasicBlock, _ int, in ssa.Instruction) {
+			// every value that derives from HotKey.Name and is sliced, or passed to a transforming string function
+			switch x := in.(type) {
+			case *ssa.Slice:
+				if derives(x.X, func(v ssa.Value) bool { f, _ := loadedField(v); return f == nameF }) && (x.High != nil || x.Low != nil) {
+					bad = "a slice expression"
+					at = x.Pos()
+				}
+			case *ssa.Call:
+				g := calleeFn(x.Common())
+				for _, a := range x.Call.Args {
+					if !derives(a, func(v ssa.Value) bool { f, _ := loadedField(v); return f == nameF }) {
+						continue
+					}
+					used++
+					if g != nil && g.Pkg != nil && (g.Pkg.Pkg.Path() == "strings" || g.Pkg.Pkg.Path() == "bytes") {
+						switch g.Name() {
+						case "ToLower", "ToUpper", "TrimSpace", "Trim", "TrimRight", "TrimLeft", "Title", "Replace", "ReplaceAll", "Fields", "Split":
+							bad = g.Pkg.Pkg.Path() + "." + g.Name()
+							at = x.Pos()
+						}
+					}
+				}
+			}
+		})
+	}
+	if used == 0 {
+		c.Fail(rule, "HOTKEY report lists the tracked names", h.Pos(), "the HOTKEY handler does not put the tracked key names into its reply")
+		return
+	}
+	c.Check(bad == "", rule, "HOTKEY report lists the tracked names verbatim", at, "names go into the reply unchanged", "a tracked key name passes through "+bad+" on its way into the reply: the report lists a name that no client accessed, and two tracked keys with a common prefix are listed as the same key twice")
 }
